@@ -351,6 +351,12 @@ WIDE_SOURCES = [
     "{% unless x == y %}{{ x | prepend: y }}{% endunless %}", "{% cycle x, y, 'c' %}{% cycle x, y, 'c' %}",
 ]
 _WIDE_ENV = None
+_HAND_ENV = None
+HAND_SOURCES = [
+    "{{ 'Hello %(a)s' | t: a: x }}", "{{ 'Hello %(a)s %(b)s' | t: a: y, b: x }}", "{{ 'a %(b)s' | gettext: b: x }}",
+    "{{ 'one %(b)s' | ngettext: 'many %(b)s', 2, b: x }}", "{{ 'one %(b)s' | ngettext: 'many %(b)s', 1, b: y }}",
+    "{{ 'ctx' | pgettext: 'm %(b)s', b: y }}", "{{ 'ctx' | npgettext: 'one %(b)s', 'many %(b)s', 3, b: x }}",
+]
 CUT_RE = re.compile(r"slice|split|remove|replace|truncate")
 
 
@@ -373,9 +379,20 @@ def wide(ck: Check, seen: dict, n_random: int) -> None:
     for _ in range(n_random):
         mk = lambda: "".join(ck.rng.choice(TOKENS) for _ in range(ck.rng.randrange(1, 5)))  # noqa: E731
         datas.append(dict(x=mk(), y=mk(), l=[mk(), mk()], d={"k": mk()}))
-    for src in WIDE_SOURCES:
+    # the translation filters registered BY HAND with their defaults (autoescape_message=False: the message text is trusted and
+    # is a template literal here); the message VARIABLES still come from render data and must be escaped
+    global _HAND_ENV
+    if _HAND_ENV is None:
+        from liquid import Environment
+        from liquid.extra.filters.translate import GetText, NGetText, NPGetText, PGetText, Translate
+
+        _HAND_ENV = Environment(autoescape=True)
+        for f in (Translate(), GetText(), NGetText(), PGetText(), NPGetText()):
+            _HAND_ENV.add_filter(f.name, f)
+    jobs = [(_WIDE_ENV, src) for src in WIDE_SOURCES] + [(_HAND_ENV, src) for src in HAND_SOURCES]
+    for the_env, src in jobs:
         try:
-            t = _WIDE_ENV.from_string(src)
+            t = the_env.from_string(src)
         except Exception as e:  # noqa: BLE001
             ck.count("wide.parse-error")
             continue
